@@ -291,7 +291,27 @@ func waiting(k int) {
 		}
 	} else {
 		ep, _ = x.h.S.NewEndpoint(udp.ProtocolNumber, ipv4.ProtocolNumber, wq)
-		_, c, e := ep.Write(tcpip.SlicePayload(payload), tcpip.WriteOptions{To: &tcpip.FullAddress{Addr: nh, Port: 9}})
+		wopts := tcpip.WriteOptions{To: &tcpip.FullAddress{Addr: nh, Port: 9}}
+		if r.Chance(1, 3) {
+			// the socket was connected to another, resolved neighbour before and has sent to it;
+			// it is now re-connected to the unresolved one: nothing learned for the old peer
+			// applies to the new one
+			other := [4]byte{10, 0, 0, 29}
+			om := [6]byte{2, 5, 5, 5, 5, 29}
+			x.arp(2, om, other, smac, ip4b(wire.AddrA4))
+			rawpeer.Settle()
+			if e := ep.Connect(tcpip.FullAddress{Addr: tcpip.Address(other[:]), Port: 9}); e == nil {
+				ep.Write(tcpip.SlicePayload([]byte("to the old peer")), tcpip.WriteOptions{})
+				rawpeer.Settle()
+				ce := ep.Connect(tcpip.FullAddress{Addr: nh, Port: 9})
+				trace = append(trace, fmt.Sprintf("socket connected to %v (resolved), written to, then re-connected to %v -> %v", other, []byte(nh), ce))
+				run.Count("waits_on_a_reconnected_socket", 1)
+			}
+			x.take()
+			start = time.Now()
+			wopts = tcpip.WriteOptions{} // a plain write on the connected socket
+		}
+		_, c, e := ep.Write(tcpip.SlicePayload(payload), wopts)
 		if e != tcpip.ErrWouldBlock || c == nil {
 			viol("wait/udp-write-did-not-wait", fmt.Sprintf("UDP write to an unresolved neighbour returned %v (channel %v); expected would-block with a wait channel", e, c != nil))
 			return
@@ -490,6 +510,39 @@ func ndp(k int) {
 	la, _, err := x.h.S.GetLinkAddress(1, tcpip.Address(p6[:]), wire.AddrA6, ipv6.ProtocolNumber, &sleep.Waker{})
 	if err != nil || !bytes.Equal([]byte(la), pm[:]) {
 		run.Violation("C12/ndp/not-learned", fmt.Sprintf("after a neighbour advertisement from %x / %x the cache says %x, %v", p6, pm, []byte(la), err), k)
+	}
+	// the stack itself solicits a neighbour; the neighbour's (solicited) advertisement carries
+	// the Override flag or not - either way it is the reply the resolution is waiting for
+	{
+		q6 := p6
+		q6[15] ^= 0x55
+		var qm [6]byte
+		copy(qm[:], r.Bytes(6))
+		qm[0] &^= 1
+		x.take()
+		_, _, e1 := x.h.S.GetLinkAddress(1, tcpip.Address(q6[:]), wire.AddrA6, ipv6.ProtocolNumber, &sleep.Waker{})
+		rawpeer.Settle()
+		solicited := 0
+		for _, o := range x.take() {
+			if pp, err := rfc.ParseIPv6(o.data); o.proto == uint16(ipv6.ProtocolNumber) && err == nil && pp.Next == rfc.ProtoICMPv6 {
+				if mm, _ := rfc.ParseICMPv6(pp.Payload, pp.Src, pp.Dst); mm.Type == 135 && len(mm.Payload) >= 16 && bytes.Equal(mm.Payload[:16], q6[:]) {
+					solicited++
+				}
+			}
+		}
+		if e1 != nil && solicited > 0 {
+			flags := []byte{0x60, 0x40, 0xc0, 0xe0}[r.Intn(4)] // S|O, S, R|S, R|S|O
+			rep := rfc.ICMP{Type: 136, Rest: [4]byte{flags, 0, 0, 0}, Payload: append(append([]byte{}, q6[:]...), 2, 1, qm[0], qm[1], qm[2], qm[3], qm[4], qm[5])}
+			ipr := rfc.IPv6{Next: rfc.ProtoICMPv6, Hop: 255, Src: q6, Dst: s6, Payload: rep.BytesV6(q6, s6, true)}
+			x.h.L.Inject(ipv6.ProtocolNumber, ipr.Bytes(true), tcpip.LinkAddress(qm[:]))
+			rawpeer.Settle()
+			la, _, e2 := x.h.S.GetLinkAddress(1, tcpip.Address(q6[:]), wire.AddrA6, ipv6.ProtocolNumber, &sleep.Waker{})
+			if e2 != nil || !bytes.Equal([]byte(la), qm[:]) {
+				run.Violation("C12/ndp/solicited-reply-not-learned", fmt.Sprintf("the stack solicited %x and the neighbour answered with an advertisement (flags %#02x) carrying %x: the cache says %x, %v", q6, flags, qm, []byte(la), e2), k)
+			}
+			run.Count("ndp_solicited_replies", 1)
+			x.take()
+		}
 	}
 	// the solicited address is removed: the same solicitation must now go unanswered
 	if own && r.Bool() {
